@@ -55,6 +55,18 @@ CHECKS.update({
          "30k (quick) / 500k (thorough) programs of 2-9 symbols (code/data/EEPROM labels, .equ incl. references to other symbols, .set with sequential reassignments, .def/.undef/re-.def) and 4-27 define/use steps in generated order, each occurrence of a name in its own letter case. Image must equal the model's binding; variants with one fault (definition deleted, duplicate label, alias out of scope, .set used before assignment) must fail; replacing alias uses by the register must not change the image.",
          "Names are unique across symbol kinds (collisions between kinds are not defined by the property); re-.def only after .undef.",
          "DESIGN.md §5 C10"),
+ "C11": ("proptest split of a flat program into a file tree on disk; differential build_file(tree) vs build_str(pasted text) vs reference model",
+         "3k (quick) / 60k (thorough) generated trees of 1-8 files, depth <= 4, written under scratch/: every file is reachable by exactly one documented rule (path as written absolute / relative to the working directory, includer's directory or sub/, caller-supplied directory, .includepath absolute or relative to the file carrying it, carried by the includer, an enclosing file or a previously included sibling). Labels, .equ, macros, .define flags, .device and messages cross file boundaries in both directions; 20 % of files end with .exit + poison. build_file(tree) must equal build_str(pasted text) in images, sizes, ram_filling and message texts; message line numbers must be the lines in their own files; the pasted text must match the model. A file that exists nowhere must fail with an error naming it.",
+         "File names are unique so the (undocumented) search order never matters; .exit only at the end of a file; the harness's working directory is /verif.",
+         "DESIGN.md §5 C11"),
+ "C14": ("metamorphic: one generated program rendered under two generated styles must give the canonical rendering's result",
+         "30k (quick) / 600k (thorough) pairs: a valid program from the union of the layout, expression, data, conditional, macro and symbol generators rendered under two independent styles over nine dimensions (three comment kinds with hostile text, blank/comment-only lines, spaces/tabs at the permitted positions, LF/CRLF, case of mnemonics, registers, function names, symbol references, radix and zero padding). Each rendering must produce exactly the canonical rendering's code, eeprom, sizes, ram_filling and message texts (or fail like it).",
+         "White-space positions restricted to those the grammar documents/accepts (DESIGN §4: none inside index forms, none between a unary operator and its operand, none before a label's colon); directive names are not re-cased; >=95 % of canonical renderings must build or the run is declared broken.",
+         "DESIGN.md §5 C14"),
+ "C15": ("proptest single-fault injection at generated positions with a line-shift metamorphic relation; message-order oracle against a blanked twin program",
+         "18k (quick) / 360k (thorough) programs with exactly one injected fault of 13 kinds on a three-digit line whose number cannot occur otherwise in the program: the build must fail and the error text must contain that line number as a stand-alone token, and number+k after k blank lines are inserted above. 8k/160k message programs: .message/.warning/.error at top level, in taken and untaken arms and in EEPROM blocks: images equal those of the twin with the directives blanked, the message list holds exactly the assembled ones in source order with their own line numbers, .error fails exactly when assembled.",
+         "The message format itself is not pinned (only text, order and a line-number token). For a duplicate label the line of either definition is accepted.",
+         "DESIGN.md §5 C15"),
 })
 NOT_YET = {}
 
